@@ -64,21 +64,23 @@ PROPS = {
         'explanation': 'validate_scalar (accept / reject decision per value) and slice_length are discharged by z3 (counted under C04/C07 evidence too); Vector.__setitem__ itself (index phase, multi-value decision, commit) is bounded only in this round: exhaustive key forms x value forms with list assignment as oracle and a snapshot comparison on every failure.',
     },
     'C09': {
-        'level': 'exploration',
-        'explanation': 'Bounded only in this round: all table pairs up to 3x3 (4x4 thorough) against the nested-loop definition, several hash seeds. The quantified index/probe loop invariants (DESIGN appendix A.3/A.4) are not yet discharged on the real loops.',
+        'level': 'proof',
+        'explanation': "Phase proofs on the real text of Table.inner_join, for an ARBITRARY number of rows and arbitrary key values (one key column and one payload column per side): (1) index-build loop invariant - bucket(k) is exactly the ascending list of right rows with key k, with a ghost position witness for completeness; (2) probe and emit loop invariants - the output buffers consist of one contiguous block per left row, in left order, holding one row per entry of that row's bucket in ascending right order with the paired rows' cells (four variants enumerate the valid expect values; the two cross-cardinality ones run in the thorough tier); (3) exit assertion - the returned table is the buffers wrapped column by column under the input columns' names, and has no columns when nothing matched. Together: exactly one output row per key-equal pair, left-major / right-ascending. Each phase assumes the earlier invariants at loop exits only (listed as assumptions; they are obligations of the sibling variant in the same check). Key resolution by name (_validate_join_keys, trusted contract here; Table._resolve_column has its own discharged contract), multi-column keys and wider tables are covered by the bounded stand-in (all table pairs up to 3x3 rows, 4x4 thorough, 1-3 keys, several hash seeds) which also supplies replayable inputs.",
+        'trusted': ['_validate_join_keys / _validate_key_tuple_hashable: trusted contracts (bounded under C09)', 'dict / list / set: insertion-ordered map, append, membership by == (symbolic container model, pyvc/symcoll.py); key equality only, no hash values', 'schema width fixed at 1 key + 1 payload column per side in the proofs; rows unbounded'],
     },
     'C10': {
-        'level': 'exploration',
-        'explanation': 'Bounded only in this round (same enumerator as C09; left/full definitions, containment and symmetry relations).',
+        'level': 'proof',
+        'explanation': 'Phase proofs on the real text of Table.join (left join), arbitrary rows and keys, one key and one payload column per side: index-build invariant (as C09), probe / emit invariants - every left row contributes one contiguous block, in left order: one row per key-equal right row in ascending right order, or exactly one row padded with None in every right column when nothing matches - and the exit assertion (buffers wrapped under the input names; no columns for an empty left table). Table.full_join, the containment / symmetry relations between the three joins, multi-column keys and name-resolved keys are bounded only (same enumerator as C09: all table pairs up to 3x3 rows, 4x4 thorough).',
+        'trusted': ['_validate_join_keys / _validate_key_tuple_hashable: trusted contracts (bounded)', 'symbolic container model for dict / list / set (pyvc/symcoll.py)', 'Table.full_join is not under a loop invariant: bounded stand-in only', 'schema width fixed at 1 key + 1 payload column per side in the proofs; rows unbounded'],
     },
     'C11': {
         'level': 'proof',
-        'explanation': 'The uniqueness flags and the expect validation of inner_join / join / full_join are extracted by a mechanical statement slice (kept: the expect test and the two flag assignments; refused if they are not unconditional top-level assignments over `expect` only) and proved equal to the statement (complete 4x3 decision table plus rejection of every other string). That the flags are *used* to raise iff uniqueness fails is bounded (full decision table over all key multisets of size <=3).',
-        'trusted': ['statement slice: everything except the expect test and the flag assignments is dropped; use of the flags is covered by the bounded stand-in only'],
+        'explanation': 'The uniqueness flags and the expect validation of inner_join / join / full_join are extracted by a mechanical statement slice (kept: the expect test and the two flag assignments; refused if they are not unconditional top-level assignments over `expect` only) and proved equal to the statement (complete 4x3 decision table plus rejection of every other string). That the flags are *used* correctly is proved for inner_join and join by the loop invariants of C09/C10 (the duplicate record after the index loop is non-empty iff some right key repeats, the left seen-set is exactly the set of processed left keys, so each raise happens iff the stated side repeats a key; arbitrary rows, one key column); full_join's use of the flags and multi-column keys are bounded (full decision table over all key multisets of size <=3).',
+        'trusted': ['statement slice: everything except the expect test and the flag assignments is dropped in the flag obligations; the loop-invariant variants run the whole function text'],
     },
     'C12': {
         'level': 'proof',
-        'explanation': 'Each built-in aggregator body (two lambdas and four nested functions of Table.aggregate, extracted with their closures) equals its textbook spec on an arbitrary group; Vector.sum/mean/min/max/stdev equal the same spec functions (whole-column agreement by construction). The partition loop (first-appearance order, one row per key) and aggregate_col are bounded only.',
+        'explanation': 'Each built-in aggregator body (two lambdas and four nested functions of Table.aggregate, extracted with their closures) equals its textbook spec on an arbitrary group; Vector.sum/mean/min/max/stdev equal the same spec functions (whole-column agreement by construction). The partition loop is under a discharged quantified invariant (every row in exactly one bucket, buckets ascending, keys in first-appearance order; arbitrary rows, one key column); the per-group evaluation and result assembly (aggregate_col) are bounded only.',
         'trusted': ['sum/min/max/len uninterpreted; A-real'],
     },
     'C13': {
